@@ -278,4 +278,64 @@ def shared_writes(model):
                     out.append(dict(fi=fi, node=n, target=norm(base),
                                     kind='mutation of a module-level '
                                          'container'))
+    # mutable class-level attributes reached through `self` that no method
+    # ever re-binds per instance: one object for all instances (and all
+    # renders), also in classes that are instantiated per render
+    for fi in rfuncs:
+        ci = fi.cls
+        if ci is None:
+            continue
+        shared_attrs = _class_level_mutables(model, ci)
+        if not shared_attrs:
+            continue
+        for n in own_nodes(fi.node):
+            base = None
+            if isinstance(n, ast.Call) and isinstance(
+                    n.func, ast.Attribute) and n.func.attr in MUTATORS | {
+                        'add', 'discard'}:
+                base = n.func.value
+            elif isinstance(n, ast.Subscript) and isinstance(
+                    n.ctx, (ast.Store, ast.Del)):
+                base = n.value
+            if isinstance(base, ast.Attribute) and isinstance(
+                    base.value, ast.Name) and base.value.id == 'self' and \
+                    base.attr in shared_attrs:
+                if any(o['node'] is n for o in out):
+                    continue
+                out.append(dict(
+                    fi=fi, node=n, target=norm(base),
+                    kind='class-level mutable attribute (one object for '
+                         'all instances, never re-bound per instance)'))
+    return out
+
+
+def _class_level_mutables(model, ci):
+    cached = getattr(ci, '_dt_clm', None)
+    if cached is not None:
+        return cached
+    out = set()
+    for c in model.mro(ci):
+        if isinstance(c, str):
+            continue
+        for name, v in c.attrs.items():
+            mutable = isinstance(v, (ast.Dict, ast.List, ast.Set)) or (
+                isinstance(v, ast.Call) and isinstance(v.func, ast.Name)
+                and v.func.id in ('set', 'dict', 'list', 'defaultdict',
+                                  'OrderedDict'))
+            if mutable:
+                out.add(name)
+    # re-bound per instance somewhere in the hierarchy?
+    for c in model.mro(ci):
+        if isinstance(c, str):
+            continue
+        for m in c.methods.values():
+            for n in own_nodes(m.node):
+                if isinstance(n, (ast.Assign, ast.AnnAssign)):
+                    tg = n.targets if isinstance(n, ast.Assign) \
+                        else [n.target]
+                    for t in tg:
+                        if isinstance(t, ast.Attribute) and isinstance(
+                                t.value, ast.Name) and t.value.id == 'self':
+                            out.discard(t.attr)
+    ci._dt_clm = out
     return out
